@@ -254,11 +254,18 @@ class Rec:
                             "cls": self.cls, "subs": []}
             self.cur["subs"].append(sub)
 
+    def post(self, A, B, A2, B2):
+        """state of the operand objects after the sequence of operations of the current batch"""
+        if self.cur is not None and self.cur["A"] == A and self.cur["B"] == B:
+            self.cur["A2"], self.cur["B2"] = A2, B2
+
     def flush(self):
         """one ndjson line per operand tuple: the operands are parsed once by TLC, the sub-events
         [kind, op, entry points, exc, params, R, rb, C] are checked one by one (clause reported with the sub index)"""
         if self.cur is not None and self.cur["subs"]:
             ev = self.cur
+            ev.setdefault("A2", [])
+            ev.setdefault("B2", [])
             self.out.write(ev, nontrivial_key=[ev["A"], ev["B"], ev["ctx"], ev["subs"][0][1]], outcome="batch",
                            sample={"A": ev["A"], "B": ev["B"], "subs": ev["subs"][:3]})
         self.cur = None
@@ -304,6 +311,7 @@ def gen_pairs(job, out, rng):
     rate = job.get("rate", 1.0)
     only_new = job.get("only_new")          # closure phase: skip pairs where both operands are in the base set
     basekeys = {key(t) for t in base_pop} if only_new else set()
+    smod = job.get("stable_mod")            # content-based deterministic slice (closure tier of the quick run)
     mod = job.get("slice_mod")              # deterministic sub-population: pairs with (ia*nB+ib) % mod == rem
     n = 0
     for ia, ta in enumerate(popA):
@@ -316,16 +324,30 @@ def gen_pairs(job, out, rng):
                 continue
             if rate < 1.0 and rng.random() >= rate:
                 continue
+            if smod and not stable([key(ta), key(tb)], smod):
+                continue
             n += 1
             pair_events(rec, kinds, ops, ta, tb)
     return rec
 
 
+def tup5(x):
+    return [x.bits, I(x.stride), I(x.lower_bound), I(x.upper_bound), 1 if x.is_empty else 0]
+
+
 def pair_events(rec, kinds, ops, ta, tb):
+    """every operation of the pair runs on the SAME two operand objects, one after the other (concat first: it is
+    the operation that rebuilds its low operand).  Operations must not change their operands: the operands' state
+    after the sequence is recorded (A2, B2) and compared with A, B by TLC (clause operand-mutated), and every later
+    operation of the sequence is validated against the operands as they were constructed."""
     from claripy.backends.backend_vsa import StridedInterval
     A, B = [strip(ta)], [strip(tb)]
     nonbot = not ta[4] and not tb[4]
-    fresh = lambda: (mk(ta), mk(tb))  # noqa: E731
+    a0, b0 = mk(ta), mk(tb)
+    fresh = lambda: (a0, b0)  # noqa: E731
+    if "cat" in kinds and nonbot and (not ops or "concat" in ops):
+        rec.emit({"k": "cat", "op": "concat", "A": A, "B": B},
+                 run2(lambda a, b: be_call("Concat", (a, b)), lambda a, b: a.concat(b), fresh))
     if "bin" in kinds and nonbot:
         for op, (beop, meth) in BIN.items():
             if ops and op not in ops:
@@ -341,29 +363,28 @@ def pair_events(rec, kinds, ops, ta, tb):
                 exc, v = guarded(lambda: PYCMP[op](*fresh()))
                 outs.append(("pyop", exc, *(value(v) if not exc else ("", None))))
             rec.emit({"k": "cmp", "op": op, "A": A, "B": B}, outs)
-    if "cat" in kinds and nonbot and (not ops or "concat" in ops):
-        rec.emit({"k": "cat", "op": "concat", "A": A, "B": B},
-                 run2(lambda a, b: be_call("Concat", (a, b)), lambda a, b: a.concat(b), fresh))
     if "join" in kinds:
         if not ops or "union" in ops:
-            rec.emit({"k": "join", "op": "union", "A": A, "B": B, "C": [], "n": 2}, _join_outs("union", ta, tb))
+            rec.emit({"k": "join", "op": "union", "A": A, "B": B, "C": [], "n": 2}, _join_outs("union", ta, tb, fresh))
         if not ops or "lub" in ops:
             rec.emit({"k": "join", "op": "lub", "A": A, "B": B, "C": [], "n": 2},
                      run2(None, lambda a, b: StridedInterval.least_upper_bound(a, b), fresh))
         if not ops or "widen" in ops:
-            rec.emit({"k": "join", "op": "widen", "A": A, "B": B, "C": [], "n": 2}, _join_outs("widen", ta, tb))
+            rec.emit({"k": "join", "op": "widen", "A": A, "B": B, "C": [], "n": 2}, _join_outs("widen", ta, tb, fresh))
     if "meet" in kinds and (not ops or "intersection" in ops):
-        rec.emit({"k": "meet", "op": "intersection", "A": A, "B": B}, _join_outs("intersection", ta, tb))
+        rec.emit({"k": "meet", "op": "intersection", "A": A, "B": B}, _join_outs("intersection", ta, tb, fresh))
+    rec.post(A, B, [tup5(a0)], [tup5(b0)])
 
 
-def _join_outs(name, ta, tb):
+def _join_outs(name, ta, tb, fresh=None):
     """set operations: backend entry = convert of the AST node (union/intersection/widen are expression ops)"""
     import claripy
     outs = []
     exc, v = guarded(lambda: claripy.backends.vsa.convert(getattr(mk_ast(ta), name)(mk_ast(tb))))
     if exc not in ("BackendUnsupportedError",):
         outs.append(("be", exc, *(value(v) if not exc else ("", None))))
-    exc, v = guarded(lambda: getattr(mk(ta), name)(mk(tb)))
+    exc, v = guarded((lambda: getattr(mk(ta), name)(mk(tb))) if fresh is None else
+                     (lambda: (lambda a, b: getattr(a, name)(b))(*fresh())))
     outs.append(("meth", exc, *(value(v) if not exc else ("", None))))
     return outs
 
@@ -379,7 +400,8 @@ def gen_unary(job, out, rng):
             continue
         A = [strip(ta)]
         w = ta[0]
-        fresh = lambda: (mk(ta),)  # noqa: E731
+        a0 = mk(ta)
+        fresh = lambda: (a0,)  # noqa: E731     (one operand object for the whole sequence, see pair_events)
         rec.emit({"k": "un", "op": "neg", "A": A, "p": []},
                  run2(lambda a: be_call("__neg__", (a,)), lambda a: a.neg(), fresh))
         rec.emit({"k": "un", "op": "not", "A": A, "p": []},
@@ -394,6 +416,7 @@ def gen_unary(job, out, rng):
                 rec.emit({"k": "un", "op": "extract", "A": A, "p": [hi, lo]},
                          run2(lambda a, h=hi, l=lo: be_call("Extract", (h, l, a)), lambda a, h=hi, l=lo: a.extract(h, l),
                               fresh))
+        rec.post(A, [], [tup5(a0)], [])
     return rec
 
 
@@ -776,10 +799,14 @@ def gen_vs(job, out, rng):
                 vs_emit(out, {**base, "op": name}, run2(None, lambda a, b, nm=name: getattr(a, nm)(b), fresh), stats)
             vs_emit(out, {**base, "op": "concat", "wb": W},
                     run2(lambda a, b: be_call("Concat", (a, b)), None, fresh), stats)
-        for sb in popV0:
-            if not stable([sa, sb], modvv):
+        for sb0 in popV0:
+            if not stable([sa, sb0], modvv):
                 continue
-            base = {"k": "vs", "w": W, "Av": Av, "bt": "vs", "B": [], "Bv": vs_enc(sb), "ctx": "vs"}
+            # two-region right operands are assembled in the opposite region order on every second pair: operations
+            # must pair the regions by name, not by insertion position
+            rev = len(sb0) > 1 and stable([sb0, sa, "order"], 2)
+            sb = list(reversed(sb0)) if rev else sb0
+            base = {"k": "vs", "w": W, "Av": Av, "bt": "vs", "B": [], "Bv": vs_enc(sb), "ctx": "vs-rev" if rev else "vs"}
             fresh = lambda: (mk_vs(sa, W), mk_vs(sb, W))  # noqa: E731
             vs_emit(out, {**base, "op": "sub"}, run2(lambda a, b: be_call("__sub__", (a, b)), None, fresh), stats)
             for op in ("eq", "ne", "ULE"):
@@ -787,6 +814,15 @@ def gen_vs(job, out, rng):
                         run2(lambda a, b, o=CMP[op][0]: be_call(o, (a, b)), None, fresh), stats)
             for name in ("union", "widen", "intersection"):
                 vs_emit(out, {**base, "op": name}, run2(None, lambda a, b, nm=name: getattr(a, nm)(b), fresh), stats)
+        if len(sa) > 1:
+            # difference of two value sets over the same regions, the right one assembled in the opposite order
+            for sb0 in popV0:
+                if len(sb0) < 2 or not stable([sa, sb0, "sub-rev"], job.get("mod_rev", 1)):
+                    continue
+                sb = list(reversed(sb0))
+                vs_emit(out, {"k": "vs", "w": W, "Av": Av, "bt": "vs", "B": [], "Bv": vs_enc(sb), "ctx": "vs-rev",
+                              "op": "sub"},
+                        run2(lambda a, b: be_call("__sub__", (a, b)), None, lambda: (mk_vs(sa, W), mk_vs(sb, W))), stats)
     return stats
 
 
@@ -828,7 +864,7 @@ def build_ann(t, env):
     return TM.build_std(op, t, a)
 
 
-def conv_event(out, t, vars_, ctx, stats, solver=False):
+def conv_event(out, t, vars_, ctx, stats, solver=False, keep=None):
     """vars_: [[name, w, tuple-or-None]]"""
     import claripy
     env = {n: var_ast(n, w, si) for n, w, si in vars_}
@@ -841,6 +877,8 @@ def conv_event(out, t, vars_, ctx, stats, solver=False):
     for n, w in used.items():
         if w == 0:
             vv.append([n, 0, []])
+    if keep is not None:
+        keep.append(ast)
     exc, r = guarded(lambda: claripy.backends.vsa.convert(ast))
     if exc in ("BackendError", "BackendUnsupportedError"):
         stats["unsupported"] = stats.get("unsupported", 0) + 1
@@ -897,7 +935,7 @@ def d1_terms(W, maxw=6):
             if not (hi == W - 1 and lo == 0):
                 yield TM.T("Extract", x, ints=(hi, lo))
     yield TM.T("Concat", x, y)
-    for c in ("ULT", "SLE", "__eq__", "__ne__"):
+    for c in ("ULT", "SLE", "__eq__"):
         cond = TM.T(c, x, y)
         yield TM.T("If", cond, x, y)
         yield TM.T("If", cond, TM.BVV(1, W), TM.BVV(0, W))
@@ -907,6 +945,19 @@ def d1_terms(W, maxw=6):
         yield TM.T("And", cond, TM.T("ULE", x, TM.BVV((1 << W) - 2, W)))
         yield TM.T("Or", cond, TM.T("UGE", y, TM.BVV(1, W)))
         yield TM.T("If", TM.T("Not", cond), TM.T("If", TM.T("UGT", x, y), x, y), TM.BVV(0, W))   # nested If
+    # an If whose branch holds (directly, or under an arithmetic node so that only ITE excavation exposes it) a second
+    # If guarded by the negated / the same condition; the branch values are pairwise different constants or variables
+    one, top_ = TM.BVV(1, W), TM.BVV((1 << W) - 1, W)
+    for c in ("ULT", "__eq__"):
+        cond = TM.T(c, x, y)
+        ncond = TM.T("Not", cond)
+        for inner_c in (ncond, cond):
+            inner = TM.T("If", inner_c, x, top_)
+            yield TM.T("If", cond, y, inner)                                   # in the else branch, direct
+            yield TM.T("If", cond, inner, y)                                   # in the then branch, direct
+            yield TM.T("If", cond, y, TM.T("__add__", one, inner))             # else branch, under +
+            yield TM.T("If", cond, TM.T("__add__", one, inner), y)             # then branch, under +
+            yield TM.T("If", ncond, y, TM.T("__xor__", inner, one))            # outer negated, under ^
 
 
 class TermGen:
@@ -981,6 +1032,28 @@ def gen_conv(job, out, rng):
                     if "y" not in TM.free_vars(t) and ib != 0:
                         continue        # single-variable shapes once per x
                     conv_event(out, t, [["x", W, sx], ["y", W, sy]], "d1", stats, solver=True)
+    elif mode == "seq":
+        # one variable name, the same bounds, strides from coarse to fine, converted one after the other in this
+        # process: first with every earlier expression still alive, then after dropping them (gc): a conversion must
+        # never be served from an expression / cached backend object that differs only in the stride
+        import gc
+        W = job["W"]
+        groups = {}
+        for t in wf_population(W):
+            groups.setdefault((t[2], t[3]), []).append(t)
+        x = TM.BVS("v", W)
+        terms = [x, TM.T("__add__", x, TM.BVV(1, W)), TM.T("ULE", x, TM.BVV(1, W))]
+        for alive in (True, False):
+            keep = []
+            for (lb, ub), g in sorted(groups.items()):
+                if len(g) < 2:
+                    continue
+                for si in sorted(g, key=lambda t: -t[1]):          # coarsest stride first
+                    for t in terms:
+                        conv_event(out, t, [["v", W, si]], "seq-alive" if alive else "seq-gc", stats, keep=keep)
+                    if not alive:
+                        del keep[:]
+                        gc.collect()
     else:
         sound = job.get("ops") == "sound"
         ctx = "rand-sound" if sound else "cat"
@@ -1074,9 +1147,14 @@ def c2si_shapes(W):
     for n in (1, 2):
         yield "zext", TM.T("ZeroExt", x, ints=(n,)), W + n
         yield "sext", TM.T("SignExt", x, ints=(n,)), W + n
-        for k in range(1 << n):
+        for k in (range(1 << n) if n == 1 else (0, 3)):
             yield "concat-kx", TM.T("Concat", TM.BVV(k, n), x), W + n
             yield "concat-xk", TM.T("Concat", x, TM.BVV(k, n)), W + n
+    # ZeroExt(n, x) & m with m a contiguous low-ones mask narrower than / as wide as / wider than x
+    for n in (1, 2):
+        for mb in (W - 1, W, W + 1):
+            if 1 <= mb <= W + n:
+                yield "zext-and", TM.T("__and__", TM.T("ZeroExt", x, ints=(n,)), TM.BVV((1 << mb) - 1, W + n)), W + n
     for k in (0, 1, (1 << W) - 1):
         for c in ("ULT", "SGE", "__eq__"):
             yield "if", TM.T("If", TM.T(c, y, TM.BVV(1, W)), x, TM.BVV(k, W)), W
